@@ -573,6 +573,17 @@ theorem shm_released (t : List Ev) (o : Outcome) (h : (t, o) ∈ parentProg.runs
   simp at hf
   exact ⟨tb, by rw [e, hf.1]⟩
 
+/-- **parent_runs_released**: every execution of the parent's control-flow model satisfies the Spec predicate
+    `releasedOK` that the harness evaluates on the exit paths of the real code (which may differ from the
+    model in harmless ways, e.g. an extra idempotent `pool.terminate()`) -/
+theorem parent_runs_released : ∀ r ∈ parentProg.runs, Aegean.Spec.C07.releasedOK r.1 = true := by decide
+
+/-- the predicate is not vacuous: dropping the last unlink, or unlinking before the maps are collected, violates it -/
+example : Aegean.Spec.C07.releasedOK [.createBkg, .createRms, .setup, .mapGet, .collect, .closeBkg, .unlinkBkg, .closeRms] = false ∧
+    Aegean.Spec.C07.releasedOK [.createBkg, .createRms, .setup, .mapGet, .closeBkg, .unlinkBkg, .collect, .closeRms, .unlinkRms] = false ∧
+    Aegean.Spec.C07.releasedOK [.createBkg, .createRms, .setup, .mapGet, .collect, .poolTerminate, .closeBkg, .unlinkBkg, .closeRms, .unlinkRms] = true := by
+  decide
+
 /-- non-vacuity: the exit paths include a normal return, a worker exception and an interrupt -/
 example : ([Ev.createBkg, .createRms, .setup, .mapGet, .collect, .closeBkg, .unlinkBkg, .closeRms, .unlinkRms], Outcome.normal)
     ∈ parentProg.runs ∧
